@@ -42,12 +42,12 @@ ADDED = {
  "C01": " The constructor is also offered items that fit in no orientation: what it accepts is decoded and judged. Violations found with scribbled *private* scratch arrays count only if the history without those scribbles still shows them.",
  "C02": " Violations found with scribbled private scratch arrays count only if the history without those scribbles still shows them.",
  "C14": " Violations found with scribbled private scratch arrays count only if the history without those scribbles still shows them. Caller threads: two threads decode at the same time (one shared encoder object of encoding 1, or an object each), released one at a time at line events of the repository's Python code by a seeded schedule (core.Preempt); every result must be the documented one.",
- "C04": " For well-formed stored integer lists the returned matrix must equal the stored numbers, sign included.",
+ "C04": " For well-formed stored integer lists the returned matrix must equal the stored numbers, sign included. Caller threads: two threads validate live packings at the same time (one shared PackingSpace, or an instance and a space each) under the line-event scheduler; accepted iff feasible.",
  "C06": " The runs of a scenario may be simultaneous solve() calls on one algorithm object: real threads released one at a time at should_terminate() polls by a schedule in the scenario document. Caller-side faults: the matrix buffer handed to the Instance constructor is re-used afterwards; arrays numpy derives from an instance are offered to the algorithms (refusal is fine).",
  "C10": " Starting states also arrive as int64/float32 arrays; System objects are built and System.describe_system must write, per starting state, exactly the simulations judged before (results table on disk). Caller threads: two threads simulate at the same time under the line-event scheduler; rows, J, T and differentials must be what each simulation gives alone.",
  "C11": " Histories also contain read-only API calls (log_parameters_to, str, bounds); inside surrogate runs every evaluation is observed together with the objective's mode (an evaluation booked by the real process must be a real-system evaluation, and the recorded data must be what those evaluations record on a fresh objective). The private collection lists are used only while calibrated against get_differentials(). Faults also include an allocation failing inside get_differentials. Caller threads: two threads, each with an objective object of its own, evaluate at the same time under the line-event scheduler; each value and each recorded data set must be what that thread gets alone.",
  "C12": " Instance pools are stratified by structure class; controller-synthesis results are re-evaluated from run_ode rows alone; parsed bin bounds must be true bounds; digests of the bundled instances' data as loaded on the pinned tree are on record (c12_golden.json).",
- "C17": " Templates in which every item needs its own bin are admitted or refused by the code's own get_x_dim; objective objects with another configuration are used in turns.",
+ "C17": " Templates in which every item needs its own bin are admitted or refused by the code's own get_x_dim; objective objects with another configuration are used in turns; decodes that fail half-way (short vector, NaN) happen between valid ones; the number of slack pairs varies per decode; the seed derivation of the hardness objective fails once.",
 }
 checks = []
 for pid in sorted(CLAIMED):
